@@ -747,6 +747,7 @@ impl World {
                 aad,
                 read_aad: None,
                 from_recaps: false,
+                born_event: self.stats.events as usize - 1,
             });
         }
     }
@@ -1470,6 +1471,7 @@ impl World {
                     aad: None,
                     read_aad: None,
                     from_recaps: true,
+                    born_event: self.stats.events as usize - 1,
                 });
                 // Decaps matrix of the output, immediately.
                 let new_slot = self.slots.len() - 1;
